@@ -285,7 +285,7 @@ def order(F, R):
         R.check(ok, 'B.C02.order-track', 'Track::process', why,
                 detail='gate ≺ child tracks ≺ sounds ≺ effects ≺ spatialisation ≺ volume×fade ≺ sends', where=tb.file)
         # the fader multiplies by both the track volume and the pause fade
-        fb = [x for x, tt in tb.calls() if (callee_path(tt) or '').endswith('::mul_assign') and 'frame::Frame' in (callee_path(tt) or '')]
+        fb = [x for x, tt in tb.calls() if (callee_path(tt) or '').split('::')[-1] in ('mul_assign', 'mul') and 'frame::Frame' in (callee_path(tt) or '')]
         if fb:
             d = describe(tb, tb.blocks[fb[-1]]['term']['args'][1], depth=8)
             R.check('volume' in d and 'interpolated_fade_volume' in d and d.startswith('Mul('), 'B.C02.order-track', 'Track::fader',
